@@ -135,24 +135,37 @@ func (m *parserModel) verifiedOnceFlags() map[*ssa.Phi]constant.Value {
 			}
 			good := true
 			sawOther := false
-			for i, e := range phi.Edges {
-				if e == ssa.Value(phi) {
-					continue
+			// the flag's values, looked at through the merges between the place it is set and the loop header
+			var walk func(ph *ssa.Phi, seen map[*ssa.Phi]bool)
+			walk = func(ph *ssa.Phi, seen map[*ssa.Phi]bool) {
+				if seen[ph] {
+					return
 				}
-				c, ok := e.(*ssa.Const)
-				if !ok || c.Value == nil || c.Value.Kind() != init.Kind() {
-					good = false
-					continue
-				}
-				if !constant.Compare(c.Value, token.EQL, init) {
-					sawOther = true
-					// the edge must come from a block dominated by the append's block, after the append
-					pred := phi.Block().Preds[i]
-					if !in.Block().Dominates(pred) {
+				seen[ph] = true
+				for i, e := range ph.Edges {
+					if e == ssa.Value(phi) {
+						continue
+					}
+					if inner, isPhi := e.(*ssa.Phi); isPhi {
+						walk(inner, seen)
+						continue
+					}
+					c, ok := e.(*ssa.Const)
+					if !ok || c.Value == nil || c.Value.Kind() != init.Kind() {
 						good = false
+						continue
+					}
+					if !constant.Compare(c.Value, token.EQL, init) {
+						sawOther = true
+						// the edge must come from a block dominated by the append's block, after the append
+						pred := ph.Block().Preds[i]
+						if !in.Block().Dominates(pred) {
+							good = false
+						}
 					}
 				}
 			}
+			walk(phi, map[*ssa.Phi]bool{})
 			if good && sawOther {
 				out[phi] = init
 			}
@@ -816,7 +829,7 @@ func rC09Readers(w *World, r *Report) {
 			switch {
 			case n == "(*getoptions.GetOpt).SetRequireOrder":
 				ru.Present("writer/"+n, w.IPos(u.Instr), "expected writer")
-			case (n == "(*getoptions.GetOpt).NewCommand" || strings.HasPrefix(n, "(*getoptions.GetOpt).HelpCommand")) && fresh:
+			case fresh:
 				ru.Present("writer/"+n, w.IPos(u.Instr), "expected writer: initialisation of the node being created")
 			case n == "(*getoptions.GetOpt).NewCommand" || strings.HasPrefix(n, "(*getoptions.GetOpt).HelpCommand"):
 				ru.Bad("writer/"+n, w.IPos(u.Instr), "requireOrder of an existing node is rewritten: a command's own SetRequireOrder (or its absence) is overridden")
@@ -868,7 +881,27 @@ func rC08ModeWriters(w *World, r *Report) {
 			}
 		case "read":
 			if n != nParseCLI && n != nParse && n != "(*getoptions.GetOpt).NewCommand" && !strings.HasPrefix(n, "(*getoptions.GetOpt).HelpCommand") {
-				ru.Bad("reader/"+n, w.IPos(u.Instr), "unexpected reader of the unknown mode")
+				// anywhere else only the inheritance copy into a node that is being created
+				inheritOnly := false
+				if ld, ok := u.Instr.(ssa.Value); ok && ld.Referrers() != nil {
+					inheritOnly = true
+					for _, ref := range *ld.Referrers() {
+						switch x := ref.(type) {
+						case *ssa.DebugRef:
+						case *ssa.Store:
+							base, f2, _, okS := storeField(x)
+							_, fresh := base.(*ssa.Alloc)
+							if !okS || f2 != f || !fresh {
+								inheritOnly = false
+							}
+						default:
+							inheritOnly = false
+						}
+					}
+				}
+				if !inheritOnly {
+					ru.Bad("reader/"+n, w.IPos(u.Instr), "unexpected reader of the unknown mode")
+				}
 			}
 		default:
 			ru.Bad("escape/"+n, w.IPos(u.Instr), "address of unknownMode escapes")
